@@ -31,6 +31,21 @@ YAML with byte order mark; each with matching declaration and crossed with the c
 carry (ASCII, Latin-1, windows-1252 only, BMP, astral) in author, Section / Property names, values and units.
 Files in these forms are run alone, next to every kind of file that has to be skipped (both creation orders,
 nested), all together, and in random mixtures; file names with non-ASCII characters are a further name style.
+
+What else is in the batch, and what the process did before (shared_cases): the files above carry the name of their
+file in every Section name, so no two files of a batch have anything in common. The shared family is the opposite:
+every file of a batch has the same Section tree, Section / Property names, types, units and (1.1) ids - copies of one
+template, which is what a directory of metadata files normally holds - and only the author and two values tell the
+files apart. The files that are not valid are, besides the kinds above, files that start like a valid file of the
+family and go wrong later (MID: unnamed Section / Property after named ones at several depths, malformed id, value
+that does not fit its dtype, same-named siblings, unsupported or misplaced element late in the file, wrong container
+late in a JSON / YAML mapping, syntax error at the very end), in every format. Each of them is placed before /
+between / after valid files in one run of each command line tool, and alone in a run that precedes a run over valid
+files in the same process (all pairs of the three tools). The oracle is the one above: every valid file gets its
+output, with exactly the content (1.1 sources: and the ids) of its source, whatever else the batch held and whatever
+ran before. A file of a MID kind that is unconvertible for sure (syntax error) has to be skipped and reported; for
+the others the statement does not say whether they are convertible: they may get an output (not examined) or must be
+named in the report as skipped / failed.
 """
 from __future__ import annotations
 
@@ -115,16 +130,18 @@ def canon(cont):
             tuple(sorted(sec(s) for s in cont['secs'])))
 
 
-def to_v10(cont):
+def to_v10(cont, ids=False):
+    """The 1.0 document model of b_C15 for a content tree; ids=True also writes the ids the content carries."""
     def sec(s):
         props = []
         for p in s['props']:
             vals = [g.V(v, ('type', p['dtype']), *([('unit', p['unit'])] if p['unit'] else []))
                     for v in p['values']]
-            props.append(g.P(p['name'], vals))
-        return g.S(s['name'], props, [sec(c) for c in s['secs']], type_=s['type'])
+            props.append(g.P(p['name'], vals, id=p.get('id') if ids else None))
+        return g.S(s['name'], props, [sec(c) for c in s['secs']], type_=s['type'], id=s.get('id') if ids else None)
     return g.D([sec(s) for s in cont['secs']],
-               attrs=(('author', cont['author']), ('date', cont['date']), ('version', cont['version'])))
+               attrs=(('author', cont['author']), ('date', cont['date']), ('version', cont['version'])),
+               id=cont.get('id') if ids else None)
 
 
 _ids = itertools.count(1)
@@ -136,42 +153,57 @@ def _new_id():
 
 def v11_dict(cont):
     def typed(p):
-        if p['dtype'] == 'int':
-            return [int(v) for v in p['values']]
-        if p['dtype'] == 'float':
-            return [float(v) for v in p['values']]
+        try:
+            if p['dtype'] == 'int':
+                return [int(v) for v in p['values']]
+            if p['dtype'] == 'float':
+                return [float(v) for v in p['values']]
+        except ValueError:
+            pass                    # a value that does not fit its dtype is stored as the text it is
         return list(p['values'])
 
     def sec(s):
-        d = {'id': _new_id(), 'type': s['type'], 'name': s['name'],
-             'sections': [sec(c) for c in s['secs']], 'properties': []}
+        d = {'id': s.get('id') or _new_id()}
+        if s['type'] is not None:
+            d['type'] = s['type']
+        if s['name'] is not None:
+            d['name'] = s['name']
+        d['sections'] = [sec(c) for c in s['secs']]
+        d['properties'] = []
         for p in s['props']:
-            pd = {'id': _new_id(), 'name': p['name'], 'value': typed(p), 'type': p['dtype']}
+            pd = {'id': p.get('id') or _new_id()}
+            if p['name'] is not None:
+                pd['name'] = p['name']
+            pd.update({'value': typed(p), 'type': p['dtype']})
             if p['unit']:
                 pd['unit'] = p['unit']
             d['properties'].append(pd)
         return d
-    return {'Document': {'id': _new_id(), 'author': cont['author'], 'date': cont['date'], 'version': cont['version'],
-                         'sections': [sec(s) for s in cont['secs']]},
+    return {'Document': {'id': cont.get('id') or _new_id(), 'author': cont['author'], 'date': cont['date'],
+                         'version': cont['version'], 'sections': [sec(s) for s in cont['secs']]},
             'odml-version': '1.1'}
 
 
 def v11_xml(cont, decl=g.XML_DECL):
     e = g._esc
 
+    def opt(tag, text):
+        return '' if text is None else '<%s>%s</%s>' % (tag, e(text), tag)
+
     def sec(s):
-        out = '<section><id>%s</id><type>%s</type><name>%s</name>' % (_new_id(), e(s['type']), e(s['name']))
+        out = '<section><id>%s</id>%s%s' % (s.get('id') or _new_id(), opt('type', s['type']), opt('name', s['name']))
         for c in s['secs']:
             out += sec(c)
         for p in s['props']:
             val = p['values'][0] if len(p['values']) == 1 else '[%s]' % ','.join(p['values'])
-            out += '<property><id>%s</id><name>%s</name><value>%s</value>' % (_new_id(), e(p['name']), e(val))
+            out += '<property><id>%s</id>%s<value>%s</value>' % (p.get('id') or _new_id(), opt('name', p['name']),
+                                                                  e(val))
             if p['unit']:
                 out += '<unit>%s</unit>' % e(p['unit'])
             out += '<type>%s</type></property>' % p['dtype']
         return out + '</section>'
     return ('%s<odML version="1.1"><id>%s</id><author>%s</author><date>%s</date><version>%s</version>%s</odML>\n'
-            % (decl, _new_id(), e(cont['author']), cont['date'], e(cont['version']),
+            % (decl, cont.get('id') or _new_id(), e(cont['author']), cont['date'], e(cont['version']),
                ''.join(sec(s) for s in cont['secs'])))
 
 
@@ -213,6 +245,214 @@ CORE_BAD = ['empty-xml', 'text-xml', 'malformed-xml', 'foreign-xml']
 ENC_BAD = ['binary-xml', 'latin1text-xml', 'misdeclared-xml']
 XML_GOOD = ['v10-xml', 'v10-odml', 'v11-xml', 'v11-odml']
 DICT_GOOD = ['v10-json', 'v10-yaml', 'v11-json', 'v11-yaml']
+
+
+# ---------------------------------------------------------------------------------------------
+# the 'shared' family: files of one batch that have Section / Property names, ids and structure in common
+# (copies of one template edited by hand - the usual content of a directory of metadata files), and files that
+# start like a valid document of the family and go wrong only later ("mid-conversion" kinds)
+# ---------------------------------------------------------------------------------------------
+
+def _sid(n):
+    return '5eed0000-0000-4000-8000-%012x' % n
+
+
+def shared_content(mark):
+    """The content of a file of the shared family: every file has the same tree, names, types, units and ids;
+    only the author and two string values carry the mark of the file (so that mixed up outputs are noticed)."""
+    def prop(n, name, dtype, values, unit=None):
+        return {'id': _sid(n), 'name': name, 'dtype': dtype, 'unit': unit, 'values': values}
+
+    def sec(n, name, type_, props, secs=()):
+        return {'id': _sid(n), 'name': name, 'type': type_, 'props': props, 'secs': list(secs)}
+    tip = sec(4, 'Tip', 'tip', [])
+    elec = sec(3, 'Electrode', 'electrode', [prop(31, 'duration', 'float', ['0.5'], 'ms')], [tip])
+    rec = sec(2, 'Recording', 'recording', [prop(21, 'duration', 'int', ['12', '13'], 's'),
+                                            prop(22, 'note', 'string', ['note of ' + mark])], [elec])
+    subj = sec(6, 'Subject', 'subject', [prop(62, 'note', 'string', ['subject of ' + mark])])
+    stim = sec(7, 'Stimulus', 'stimulus', [])
+    return {'id': _sid(1), 'author': 'author of ' + mark, 'date': DOC_DATE, 'version': DOC_VERSION,
+            'secs': [rec, subj, stim]}
+
+
+def _at(cont, path):
+    node = cont
+    for i in path:
+        node = node['secs'][i]
+    return node
+
+
+def _xsec(n, name=None, type_='extra'):
+    return {'id': _sid(900 + n), 'name': name, 'type': type_, 'props': [], 'secs': []}
+
+
+def _xprop(n, name, dtype, values):
+    return {'id': _sid(950 + n), 'name': name, 'dtype': dtype, 'unit': None, 'values': values}
+
+
+REC, ELEC, TIP, SUBJ, STIM = (0,), (0, 0), (0, 0, 0), (1,), (2,)
+
+# defects of the content, written to every format: name -> (group, change of the content tree)
+CONTENT_DEFECTS = {
+    'unnamed-section-last-top': ('unnamed-section-after-named', lambda c: c['secs'].append(_xsec(1))),
+    'unnamed-section-middle-top': ('unnamed-section-after-named', lambda c: c['secs'].insert(1, _xsec(2))),
+    'unnamed-section-depth1': ('unnamed-section-after-named', lambda c: _at(c, REC)['secs'].append(_xsec(3))),
+    'unnamed-section-depth2': ('unnamed-section-after-named', lambda c: _at(c, ELEC)['secs'].append(_xsec(4))),
+    'unnamed-section-first': ('unnamed-section-first', lambda c: c['secs'].insert(0, _xsec(5))),
+    'unnamed-property-depth0': ('unnamed-property-after-named',
+                                lambda c: _at(c, REC)['props'].append(_xprop(1, None, 'int', ['1']))),
+    'unnamed-property-depth1': ('unnamed-property-after-named',
+                                lambda c: _at(c, ELEC)['props'].append(_xprop(2, None, 'int', ['1']))),
+    'unnamed-property-depth2': ('unnamed-property-after-named',
+                                lambda c: _at(c, TIP)['props'].append(_xprop(3, None, 'int', ['1']))),
+    'malformed-id-document': ('malformed-id', lambda c: c.update(id='not-a-uuid')),
+    'malformed-id-section': ('malformed-id', lambda c: _at(c, STIM).update(id='not-a-uuid')),
+    'malformed-id-property': ('malformed-id', lambda c: _at(c, SUBJ)['props'][-1].update(id='5eed0000-62')),
+    'unconvertible-value-int': ('unconvertible-value',
+                                lambda c: _at(c, SUBJ)['props'].append(_xprop(4, 'count', 'int', ['abc']))),
+    'unconvertible-value-date': ('unconvertible-value',
+                                 lambda c: _at(c, STIM)['props'].append(_xprop(5, 'when', 'date', ['yesterday']))),
+    'unknown-dtype': ('unconvertible-value',
+                      lambda c: _at(c, STIM)['props'].append(_xprop(6, 'blob', 'nosuchtype', ['x']))),
+    'duplicate-section-names-top': ('duplicate-sibling-names',
+                                    lambda c: c['secs'].append(_xsec(6, 'Recording', 'recording'))),
+    'duplicate-section-names-depth1': ('duplicate-sibling-names',
+                                       lambda c: _at(c, REC)['secs'].append(_xsec(7, 'Electrode', 'electrode'))),
+    'duplicate-property-names': ('duplicate-sibling-names',
+                                 lambda c: _at(c, REC)['props'].append(_xprop(7, 'duration', 'int', ['99']))),
+    'section-without-type': ('section-without-type', lambda c: c['secs'].append(_xsec(8, 'Untyped', None))),
+    'empty-section-name': ('empty-name', lambda c: _at(c, REC)['secs'].append(_xsec(9, '', 'extra'))),
+}
+
+BOGUS = '<bogus>not an odML element</bogus>'
+LOOSE_PROP = '<property><name>loose</name><value>1<type>int</type></value></property>'
+
+
+def _before_last(text, closing, insert):
+    i = text.rindex(closing)
+    return text[:i] + insert + text[i:]
+
+
+# defects of the XML text: name -> (group, unconvertible for sure?, change of the text)
+XML_DEFECTS = {
+    'unsupported-element-late-document': ('unsupported-element-late', False,
+                                          lambda t: _before_last(t, '</odML>', BOGUS)),
+    'unsupported-element-late-section': ('unsupported-element-late', False,
+                                         lambda t: _before_last(t, '</section>', BOGUS)),
+    'unsupported-element-late-property': ('unsupported-element-late', False,
+                                          lambda t: _before_last(t, '</property>', BOGUS)),
+    'unsupported-element-late-value': ('unsupported-element-late', False,
+                                       lambda t: _before_last(t, '</value>', BOGUS)),
+    'property-under-document-late': ('misplaced-element-late', False,
+                                     lambda t: _before_last(t, '</odML>', LOOSE_PROP)),
+    'section-in-property-late': ('misplaced-element-late', False,
+                                 lambda t: _before_last(t, '</property>',
+                                                        '<section><name>inner</name><type>t</type></section>')),
+    'truncated-late': ('malformed-late', True, lambda t: t[:t.rindex('</section>')]),
+    'mismatched-tag-late': ('malformed-late', True, lambda t: _before_last(t, '</odML>', '</section>')),
+}
+
+
+def _last_sec(d):
+    return d['Document']['sections'][-1]
+
+
+# defects of the JSON / YAML mapping: name -> (group, unconvertible for sure?, change of the mapping)
+DICT_DEFECTS = {
+    'section-is-text-late': ('wrong-container-late', False, lambda d: d['Document']['sections'].append('oops')),
+    'properties-is-mapping-late': ('wrong-container-late', False,
+                                   lambda d: _last_sec(d).update(properties={'name': 'x'})),
+    'sections-is-text-late': ('wrong-container-late', False, lambda d: _last_sec(d).update(sections='none')),
+    'unsupported-key-late': ('unsupported-element-late', False, lambda d: _last_sec(d).update(bogus='x')),
+}
+
+SHARED_FORMATS = ['v10-xml', 'v10-odml', 'v10-json', 'v10-yaml', 'v11-xml', 'v11-odml', 'v11-json', 'v11-yaml']
+
+
+def _dict_text(fmt, data):
+    if fmt.endswith('json'):
+        return json.dumps(data, indent=1)
+    return yaml.safe_dump(data, default_flow_style=False, sort_keys=False)
+
+
+def _mid_builder(fmt, cdefect=None, xdefect=None, ddefect=None, textdefect=None):
+    def build(cont):
+        cont = json.loads(json.dumps(cont))
+        if cdefect:
+            CONTENT_DEFECTS[cdefect][1](cont)
+        ids = bool(cdefect and cdefect.startswith('malformed-id'))
+        if fmt.endswith(('xml', 'odml')):
+            text = g.to_xml(to_v10(cont, ids=ids)) if fmt.startswith('v10') else v11_xml(cont)
+            if xdefect:
+                text = XML_DEFECTS[xdefect][2](text)
+            return text
+        data = g.to_dict(to_v10(cont, ids=ids), 'JSON' if fmt.endswith('json') else 'YAML') \
+            if fmt.startswith('v10') else v11_dict(cont)
+        if ddefect:
+            DICT_DEFECTS[ddefect][2](data)
+        text = _dict_text(fmt, data)
+        if textdefect == 'truncated-late':
+            text = text[:text.rindex('Stimulus')]              # JSON: ends inside a string
+        elif textdefect == 'syntax-error-late':
+            text += '  broken: [never, closed\n'                # YAML: a flow sequence that never ends
+        return text
+    return build
+
+
+# kind -> {'ext', 'group', 'bad' (True: unconvertible for sure; False: the tool may convert it or report and skip
+# it, the statement does not say which), 'build' (content -> text)}
+MID = {}
+for _fmt in SHARED_FORMATS:
+    _ext = KINDS[_fmt][0]
+    for _name, (_group, _) in CONTENT_DEFECTS.items():
+        MID['%s~%s' % (_fmt, _name)] = {'ext': _ext, 'group': _group, 'bad': False,
+                                        'build': _mid_builder(_fmt, cdefect=_name)}
+    if _fmt.endswith(('xml', 'odml')):
+        for _name, (_group, _bad, _) in XML_DEFECTS.items():
+            if _name.endswith('-value') and _fmt.startswith('v11'):
+                continue                                        # 1.1 has no value element with children
+            MID['%s~%s' % (_fmt, _name)] = {'ext': _ext, 'group': _group, 'bad': _bad,
+                                            'build': _mid_builder(_fmt, xdefect=_name)}
+    else:
+        for _name, (_group, _bad, _) in DICT_DEFECTS.items():
+            MID['%s~%s' % (_fmt, _name)] = {'ext': _ext, 'group': _group, 'bad': _bad,
+                                            'build': _mid_builder(_fmt, ddefect=_name)}
+        _name = 'truncated-late' if _fmt.endswith('json') else 'syntax-error-late'
+        MID['%s~%s' % (_fmt, _name)] = {'ext': _ext, 'group': 'malformed-late', 'bad': True,
+                                        'build': _mid_builder(_fmt, textdefect=_name)}
+MID_BAD = [k for k in MID if MID[k]['bad']]
+EITHER = set(k for k in MID if not MID[k]['bad'])       # no demand on whether such a file is converted
+SKIP = set(BAD) | set(MID_BAD)                          # has to be reported and skipped
+
+
+def ext_of(kind):
+    return MID[kind]['ext'] if kind in MID else KINDS[kind][0]
+
+
+def group_of(kind):
+    """What kind of trouble a file that is not valid makes (label for failure classes)."""
+    return MID[kind]['group'] if kind in MID else kind
+
+
+def mid_kinds(tier):
+    """The mid-conversion kinds of a tier: thorough = all; quick = every defect of the content as 1.0 XML and in
+    one more format (round robin), the defects of the XML text as 1.0 XML (.xml / .odml alternating) and in 1.1 XML
+    (every other one), the defects of the mapping round robin over the four JSON / YAML formats."""
+    if tier != 'quick':
+        return list(MID)
+    out = []
+    others = [f for f in SHARED_FORMATS if f != 'v10-xml']
+    for i, name in enumerate(CONTENT_DEFECTS):
+        out += ['v10-xml~' + name, '%s~%s' % (others[i % len(others)], name)]
+    for i, name in enumerate(XML_DEFECTS):
+        out.append('%s~%s' % (('v10-xml', 'v10-odml')[i % 2], name))
+        if i % 2 and not name.endswith('-value'):
+            out.append('v11-xml~' + name)
+    dict_formats = [f for f in SHARED_FORMATS if f.endswith(('json', 'yaml'))]
+    for i, name in enumerate(DICT_DEFECTS):
+        out.append('%s~%s' % (dict_formats[i % 4], name))
+    out += ['v10-json~truncated-late', 'v11-yaml~syntax-error-late']
+    return out
 
 
 # ---------------------------------------------------------------------------------------------
@@ -308,6 +548,8 @@ def vlabel(kind, var):
 
 def render(kind, cont, var):
     """The bytes of one input file."""
+    if kind in MID:
+        return MID[kind]['build'](cont).encode('utf-8')
     if var is None or kind in BAD:
         data = KINDS[kind][1](cont)
         return data if isinstance(data, bytes) else data.encode('utf-8')
@@ -339,17 +581,37 @@ def render(kind, cont, var):
 
 def odml_content(doc):
     def sec(s):
-        return {'name': s._name, 'type': s.type,
-                'props': [{'name': p._name, 'dtype': p._dtype, 'unit': p._unit,
+        return {'id': s._id, 'name': s._name, 'type': s.type,
+                'props': [{'id': p._id, 'name': p._name, 'dtype': p._dtype, 'unit': p._unit,
                            'values': [_vstr(v) for v in p._values]} for p in list.__iter__(s._props)],
                 'secs': [sec(c) for c in list.__iter__(s._sections)]}
     date = doc._date
-    return {'author': doc._author, 'date': date.isoformat() if hasattr(date, 'isoformat') else date,
+    return {'id': doc._id, 'author': doc._author, 'date': date.isoformat() if hasattr(date, 'isoformat') else date,
             'version': doc._version, 'secs': [sec(s) for s in list.__iter__(doc._sections)]}
 
 
 def _vstr(v):
     return str(v)
+
+
+def ids_of(cont):
+    """(path of names, id) of the document and every Section / Property that carries an id."""
+    out = []
+
+    def sec(s, path):
+        here = path + (s['name'],)
+        if s.get('id') is not None:
+            out.append((here, s['id']))
+        for p in s['props']:
+            if p.get('id') is not None:
+                out.append((here + ('property ' + str(p['name']),), p['id']))
+        for c in s['secs']:
+            sec(c, here)
+    if cont.get('id') is not None:
+        out.append(((), cont['id']))
+    for s in cont['secs']:
+        sec(s, ())
+    return sorted(out)
 
 
 def _norm_values(cont):
@@ -395,16 +657,21 @@ def rdf_content(path, parse_format):
             out += [v for _, v in sorted(items)]
         return out
 
+    def oid(node):
+        # the ontology identifies an object by <namespace><id>
+        return str(node)[len(ODML_NS):] if str(node).startswith(ODML_NS) else str(node)
+
     def sec(node):
-        return {'name': one(node, 'hasName'), 'type': one(node, 'hasType'),
-                'props': [{'name': one(p, 'hasName'), 'dtype': one(p, 'hasDtype'), 'unit': one(p, 'hasUnit'),
+        return {'id': oid(node), 'name': one(node, 'hasName'), 'type': one(node, 'hasType'),
+                'props': [{'id': oid(p), 'name': one(p, 'hasName'), 'dtype': one(p, 'hasDtype'),
+                           'unit': one(p, 'hasUnit'),
                            'values': values(p)} for p in graph.objects(node, ns('hasProperty'))],
                 'secs': [sec(c) for c in graph.objects(node, ns('hasSection'))]}
 
     docs = list(graph.subjects(RDF.type, ns('Document')))
     if len(docs) != 1:
         raise ValueError('%d odml Documents in the graph' % len(docs))
-    return {'author': one(docs[0], 'hasAuthor'), 'date': one(docs[0], 'hasDate'),
+    return {'id': oid(docs[0]), 'author': one(docs[0], 'hasAuthor'), 'date': one(docs[0], 'hasDate'),
             'version': one(docs[0], 'hasDocVersion'),
             'secs': [sec(s) for s in graph.objects(docs[0], ns('hasSection'))]}
 
@@ -430,10 +697,19 @@ class Case(object):
     """One directory tree: <WORK>/<n>/in/... (inputs), <WORK>/<n>/out (explicit output), <WORK>/<n>/cwd."""
     counter = itertools.count()
 
-    def __init__(self, layout, in_name='in', name_style='plain'):
+    def __init__(self, layout, in_name='in', name_style='plain', shared=False, context=None):
         """layout: list of (relative sub directory ('' = top), kind[, (form, repertoire)]) in creation order;
-        without the third entry the file is plain ASCII content stored as UTF-8 with a UTF-8 declaration."""
+        without the third entry the file is plain ASCII content stored as UTF-8 with a UTF-8 declaration.
+        shared=True: the files belong to the shared family (same names, ids and structure in every file; file
+        names f00, f01, ... by position in the layout, whatever the kind). context: label of what makes the
+        batch / usage history special (part of the failure class of wrong outputs)."""
         self.layout = [(it[0], it[1], it[2] if len(it) > 2 else None) for it in layout]
+        self.shared = shared
+        self.context = context
+        if shared and context is None:
+            groups = sorted(set(group_of(k) for _, k, _ in self.layout if k not in GOOD))
+            self.context = 'same-names-in-batch-as:' + (
+                'valid-files-only' if not groups else groups[0] if len(groups) == 1 else 'several-kinds')
         self.root = os.path.join(WORK, 'case%05d' % next(Case.counter))
         shutil.rmtree(self.root, ignore_errors=True)
         self.in_name = in_name
@@ -444,23 +720,30 @@ class Case(object):
             os.makedirs(d)
         self.files = []          # dicts: base, kind, sub, rel (to root), content
         for i, (sub, kind, var) in enumerate(self.layout):
-            ext = KINDS[kind][0]
+            ext = ext_of(kind)
             base = 'n%02d%s' % (i, kind.replace('-', ''))
-            if name_style == 'dotted':
+            if shared:
+                base = 'f%02d' % i
+            elif name_style == 'dotted':
                 # distinct base names that share their first dot-separated segment (session.2020-06-24.xml ...)
                 base = 'rec.%02d.%s' % (i, kind.replace('-', ''))
             elif name_style == 'spaced':
                 base = 'my file %02d %s' % (i, kind.replace('-', ''))
             elif name_style == 'non-ascii':
                 base = 'M\u00e4ssung\u65e5_%02d_%s' % (i, kind.replace('-', ''))
-            if kind in BAD:
+            if kind not in GOOD:
                 var = None
-            cont = content(base, i % 3, var[1] if var else 'ascii') if kind in GOOD else None
+            if shared:
+                cont = shared_content(base)
+            else:
+                cont = content(base, i % 3, var[1] if var else 'ascii') if kind in GOOD else None
             d = os.path.join(self.indir, sub)
             os.makedirs(d, exist_ok=True)
             path = os.path.join(d, base + ext)
             with open(path, 'wb') as f:
                 f.write(render(kind, cont, var))
+            if kind not in GOOD:
+                cont = None
             self.files.append({'base': base, 'kind': kind, 'sub': sub, 'path': path, 'content': cont,
                                'rel': os.path.relpath(path, self.root), 'var': var, 'label': vlabel(kind, var)})
         self.before = tree_snapshot(self.root)
@@ -549,32 +832,59 @@ def _kind_of(case, rel):
     return 'other'
 
 
+def _feat(case, tool, src):
+    """Failure class of a wrong output: tool + kind of the source; in the shared family tool + version of the
+    source + what else was in the batch / happened before in the process."""
+    if case.context:
+        return '%s:%s:%s' % (tool, src['kind'][:3], case.context)
+    return '%s:%s' % (tool, src['label'])
+
+
+def _check_ids(ck, case, tool, rel, src, got, wit):
+    """A current-version source says which id every object has; that is content too."""
+    if not src['kind'].startswith('v11'):
+        return
+    want_ids = ids_of(src['content'])
+    if not want_ids:
+        return
+    got_ids = ids_of(got)
+    if got_ids != want_ids:
+        diff = [x for x in got_ids if x not in want_ids][:3], [x for x in want_ids if x not in got_ids][:3]
+        ck.fail('output-ids', _feat(case, tool, src), wit, 'output %s of %s: ids differ from the source, '
+                'only in output %r, only in source %r' % (rel, src['rel'], diff[0], diff[1]))
+
+
 def check_odml_output(ck, case, tool, rel, src, wit):
     path = os.path.join(case.root, rel)
     st, doc = h.call(lambda: XMLReader(ignore_errors=False, show_warnings=False).from_file(path))
     if st == 'exc':
-        ck.fail('output-loads', '%s:%s' % (tool, src['label']), wit, 'output %s of %s does not load strictly: %r'
+        ck.fail('output-loads', _feat(case, tool, src), wit, 'output %s of %s does not load strictly: %r'
                 % (rel, src['rel'], doc))
         return
-    got = canon(_norm_values(odml_content(doc)))
+    cont = odml_content(doc)
+    got = canon(_norm_values(cont))
     want = canon(_norm_values(src['content']))
     if got != want:
-        ck.fail('output-content', '%s:%s' % (tool, src['label']), wit, 'output %s of %s: content %r, expected %r'
+        ck.fail('output-content', _feat(case, tool, src), wit, 'output %s of %s: content %r, expected %r'
                 % (rel, src['rel'], got, want))
+    else:
+        _check_ids(ck, case, tool, rel, src, cont, wit)
 
 
 def check_rdf_output(ck, case, tool, rel, src, parse_format, wit):
     path = os.path.join(case.root, rel)
     st, cont = h.call(rdf_content, path, parse_format)
     if st == 'exc':
-        ck.fail('output-loads', '%s:%s' % (tool, src['label']), wit, 'output %s of %s does not parse as %s RDF '
+        ck.fail('output-loads', _feat(case, tool, src), wit, 'output %s of %s does not parse as %s RDF '
                 'with one odml Document: %r' % (rel, src['rel'], parse_format, cont))
         return
     got = canon(_norm_values(cont))
     want = canon(_norm_values(src['content']))
     if got != want:
-        ck.fail('output-content', '%s:%s' % (tool, src['label']), wit, 'RDF output %s of %s: content %r, expected %r'
+        ck.fail('output-content', _feat(case, tool, src), wit, 'RDF output %s of %s: content %r, expected %r'
                 % (rel, src['rel'], got, want))
+    else:
+        _check_ids(ck, case, tool, rel, src, cont, wit)
 
 
 REPORT_WORDS = ('error', 'skip', 'warn', 'fail', 'cannot', 'could not', 'invalid', 'unable', 'not ')
@@ -605,7 +915,7 @@ def run_cli(ck, case, tool, recursive, explicit):
                 'expected exactly one new directory in %s, found %r' % (out_root, after_top))
     in_scope = [f for f in case.files if recursive or f['sub'] == '']
     if status != 'ret':
-        kinds = sorted(set(f['kind'] for f in in_scope if f['kind'] in BAD))
+        kinds = sorted(set(group_of(f['kind']) for f in in_scope if f['kind'] not in GOOD))
         label = kinds[0] if len(kinds) == 1 else ('several-bad-kinds' if kinds else 'only-good-files')
         if case.form_label:
             label += ':' + case.form_label
@@ -617,9 +927,11 @@ def run_cli(ck, case, tool, recursive, explicit):
             ck.fail('writes-only-to-output', tool + ':unattributable-output', wit, 'output %s belongs to no input' % rel)
             continue
         by_src.setdefault(src['base'], []).append(rel)
-        if src['kind'] in BAD:
+        if src['kind'] in SKIP:
             ck.fail('bad-file-skipped', '%s:%s' % (tool, src['label']), wit, 'bad file %s has output %s' % (src['rel'], rel))
             continue
+        if src['kind'] in EITHER:
+            continue            # converted or not, and into what: the statement does not say
         if src not in in_scope:
             ck.fail('scope', '%s:non-recursive' % tool, wit, 'file %s in a sub directory was converted without -r' % src['rel'])
         if rel.endswith('.rdf'):
@@ -628,7 +940,10 @@ def run_cli(ck, case, tool, recursive, explicit):
             check_odml_output(ck, case, tool, rel, src, wit)
     for f in in_scope:
         outs = by_src.get(f['base'], [])
-        if f['kind'] in BAD:
+        if f['kind'] in EITHER and outs:
+            continue
+        if f['kind'] in SKIP or f['kind'] in EITHER:
+            # no output: then the file has to be named in the report as skipped / failed
             if not reported(text, f['path']):
                 ck.fail('bad-file-reported', '%s:%s' % (tool, f['label']), wit,
                         'the report has no error / skip line for %s; lines naming it: %r'
@@ -647,7 +962,7 @@ def run_cli(ck, case, tool, recursive, explicit):
 
 
 def _position_feature(case, f, in_scope):
-    bad = [x for x in in_scope if x['kind'] in BAD]
+    bad = [x for x in in_scope if x['kind'] not in GOOD]
     return 'with-bad-files' if bad else 'only-good-files'
 
 
@@ -679,7 +994,9 @@ def run_fc(ck, case, target, recursive, explicit, via_args, expect_ok):
     by_src = {}
     for rel in new_files:
         src = case.source_of(rel)
-        if src is None or src['kind'] in BAD:
+        if src is not None and src['kind'] in EITHER:
+            continue
+        if src is None or src['kind'] in SKIP:
             if status == 'ret' or src is None:
                 ck.fail('bad-file-skipped', '%s:%s' % (tool, src['kind'] if src else 'unattributable-output'), wit,
                         'output %s has no valid source' % rel)
@@ -825,6 +1142,119 @@ def fc_layouts(tier, rnd, source_kinds):
         yield ('empty',), []
 
 
+CLI_TOOLS = ('odmlconvert', 'odmltordf')
+FC_RDF_CYCLE = ['turtle', 'odml', 'xml', 'json-ld', 'nt', 'n3', 'pretty-xml', 'trig', 'ttl', 'ntriples', 'nt11']
+
+
+def same_ext_good(kind, version):
+    """The valid kind of the given version stored under the same file extension as `kind`."""
+    ext = ext_of(kind)
+    return [k for k in GOOD if KINDS[k][0] == ext and k.startswith(version)][0]
+
+
+def _one_case(col, ck, key, layout, tool, recursive, explicit, context=None, target=None, expect_ok=False):
+    case = Case(layout, shared=True, context=context)
+    col.case(cls_key=(key, tool, target, recursive, explicit),
+             sample='%s %r -r=%s -o=%s' % (tool, key, recursive, explicit))
+    try:
+        if tool == 'formatconverter':
+            run_fc(ck, case, target, recursive, explicit, False, expect_ok=expect_ok)
+        else:
+            run_cli(ck, case, tool, recursive, explicit)
+    finally:
+        case.cleanup()
+
+
+def shared_cases(tier, seed, col, ck):
+    """Batches and usage histories of the shared family (all files have names, ids and structure in common):
+    every file that is not valid (the 15 kinds that are no odML at all + the mid-conversion kinds) before / between /
+    after valid files in one run, and alone in a run that precedes a run over valid files in the same process."""
+    quick = tier == 'quick'
+    others = list(BAD) + mid_kinds(tier)
+    v11 = [k for k in GOOD if k.startswith('v11')]
+    # ---- (a) one file that is not valid at every position among two valid files of the same family.
+    # File names and creation order are fixed per position (f00, f01, f02), the first valid file has the extension
+    # of the file that is not valid: whatever order the tool visits the three directory entries in, the file that is
+    # not valid is handled before / after that valid file in at least one of the layouts.
+    n = 0
+    for xi, x in enumerate(others):
+        partners = [same_ext_good(x, 'v10')] if quick else [same_ext_good(x, 'v10'), same_ext_good(x, 'v11')]
+        for pi, ga in enumerate(partners):
+            gb = v11[xi % 4] if pi == 0 else GOOD[xi % 4]            # the other version, formats round robin
+            trio = [ga, x, gb]
+            # thorough: all 6 orders next to the 1.0 partner, 3 positions next to the 1.1 partner; the tools
+            # alternate so that each tool sees the file that is not valid at all three positions
+            orders = [(1, 0, 2), (0, 1, 2), (0, 2, 1)] if quick or pi == 1 else list(itertools.permutations(range(3)))
+            for oi, order in enumerate(orders):
+                layout = [('', trio[i]) for i in order]
+                for ti, tool in enumerate(CLI_TOOLS):
+                    if (xi + oi) % 2 != ti:
+                        continue
+                    n += 1
+                    recursive, explicit = CONFIGS[n % 4]
+                    _one_case(col, ck, ('shared-trio', x, ga, gb, order), layout, tool, recursive, explicit)
+    # ---- (b) usage histories: a run over a directory with one file that is not valid, then - same process - a run
+    # over a directory of valid files of the same family; all pairs of tools
+    tools3 = CLI_TOOLS + ('formatconverter',)
+    pairs = list(itertools.product(tools3, repeat=2))
+    for xi, x in enumerate(others):
+        old = x in MID and x.startswith('v10') or x not in MID and xi % 2 == 0
+        for pi, (t1, t2) in enumerate(pairs):
+            if pi % (9 if quick else 3) != xi % (9 if quick else 3):
+                continue            # quick: one pair of tools per kind, thorough: three (all 9 over 3 kinds)
+            ctx = 'after-run-over:' + group_of(x)
+            rdf_target = FC_RDF_CYCLE[(xi + pi) % len(FC_RDF_CYCLE)]
+            first = [('', x)] if (xi + pi) % 2 else [('', same_ext_good(x, 'v10' if old else 'v11')), ('', x)]
+            _one_case(col, ck, ('shared-history-first', x, len(first), t2), first, t1, False, bool(pi % 2),
+                      target='v1_1' if old else rdf_target)
+            if t2 == 'formatconverter':
+                srcs = ['v10-xml', 'v10-odml'] if old else ['v11-xml', 'v11-odml']
+                _one_case(col, ck, ('shared-history-second', x, t1), [('', srcs[0]), ('sub', srcs[1])], t2, True,
+                          bool(xi % 2), context=ctx, target='v1_1' if old else rdf_target, expect_ok=True)
+            else:
+                second = [('', same_ext_good(x, 'v10')), ('', v11[xi % 4]), ('sub', GOOD[(xi + pi) % 4])]
+                _one_case(col, ck, ('shared-history-second', x, t1), second, t2, True, bool(xi % 2), context=ctx)
+    # ---- (c) valid files only: every ordered pair of valid kinds, and a triple, in one run
+    for pi, (a, b) in enumerate(itertools.product(GOOD, repeat=2)):
+        if quick and a > b:
+            continue
+        for ti, tool in enumerate(CLI_TOOLS):
+            if quick and pi % 2 != ti:
+                continue
+            n += 1
+            recursive, explicit = CONFIGS[n % 4]
+            _one_case(col, ck, ('shared-valid', a, b), [('', a), ('', b), ('sub', a)], tool, recursive, explicit)
+    for ti, target in enumerate(list(ODML_TARGETS) + list(RDF_TARGETS)):
+        srcs = ['v10-xml', 'v10-odml'] if target == 'v1_1' else ['v11-xml', 'v11-odml']
+        for recursive, explicit in (CONFIGS if not quick else [CONFIGS[ti % 4]]):
+            _one_case(col, ck, ('shared-valid-fc',), [('', srcs[0]), ('', srcs[1]), ('sub', srcs[0]), ('', srcs[0])],
+                      'formatconverter', recursive, explicit, target=target, expect_ok=True)
+    # ---- (d) everything in one directory tree, and seeded random mixtures
+    nestings = {'flat': lambda i: '', 'nested': lambda i: ['', 'sub', 'sub/deep'][i % 3]}
+    for ni, (name, where) in enumerate(nestings.items()):
+        for rev in (False, True):
+            if quick and rev != (name == 'flat'):
+                continue
+            every = []
+            for i, x in enumerate(others[(ni + rev) % 2::2]):           # each half of the kinds in two arrangements
+                every += [x, GOOD[i % len(GOOD)]]
+            seq = list(reversed(every)) if rev else every
+            layout = [(where(i), k) for i, k in enumerate(seq)]
+            for ti, tool in enumerate(CLI_TOOLS):
+                for recursive, explicit in ((True, bool((ti + rev) % 2)),):
+                    _one_case(col, ck, ('shared-all', name, rev), layout, tool, recursive, explicit)
+    rnd = random.Random('shared-%r' % (seed,))
+    for i in range(10 if quick else 100):
+        layout = []
+        for _ in range(rnd.randint(3, 8)):
+            kind = rnd.choice(GOOD) if rnd.random() < 0.5 else rnd.choice(list(MID) + BAD)
+            layout.append((rnd.choice(['', '', 'sub', 'sub/deep', 'other']), kind))
+        for tool in CLI_TOOLS:
+            n += 1
+            recursive, explicit = CONFIGS[n % 4]
+            _one_case(col, ck, ('shared-random', i), layout, tool, recursive, explicit)
+
+
 def run_batch(tier, seed):
     col = h.Collector(
         'C17.batch',
@@ -840,7 +1270,21 @@ def run_batch(tier, seed):
              'can carry (quick: one per form) alone, each XML form next to each of 7 bad kinds in both creation orders '
              '(quick: one bad kind per form), all forms together with all 23 bad kinds in 3 nestings, seeded random '
              'mixtures, for both command line tools and (valid files only) every target of the format converter; file '
-             'names with dots / spaces / non-ASCII characters; class key = (layout key, tool, configuration)',
+             'names with dots / spaces / non-ASCII characters; shared family (every file of a batch has the same '
+             'Section / Property names, ids and tree; only author and two values differ): files that are not valid = '
+             'the 15 kinds above + mid-conversion kinds = 19 defects of the content (unnamed Section / Property after '
+             'named ones at depth 0-2 / first, malformed id of document / Section / Property, value that does not fit '
+             'its dtype, unknown dtype, same-named siblings, Section without type, empty name) x 8 formats + 8 defects '
+             'of the XML text (unsupported element late in document / Section / Property / value, misplaced Property / '
+             'Section, truncated / mismatched tag at the end) x 4 + 5 defects of the JSON / YAML mapping x 4 (quick: '
+             'each defect as 1.0 XML + one more format); (a) each of them at every position among two valid files '
+             '(all 6 orders, command line tools alternating so that each sees all 3 positions, next to a 1.0 file of the same extension, 3 positions next to a 1.1 '
+             'file; quick 3 positions), (b) alone or after a valid file in a first '
+             'run followed in the same process by a run over valid files, 3 of the 9 pairs of tools each, round robin '
+             '(quick: one pair each), '
+             '(c) valid files only: all ordered pairs of the 8 valid kinds, all 12 targets of the format converter, '
+             '(d) half of them interleaved with valid files in one tree, 4 arrangements, seeded random mixtures; '
+             'class key = (layout key, tool, configuration)',
         exhaustive=False)
     ck = Checker(col)
     rnd = random.Random(seed)
@@ -952,6 +1396,8 @@ def run_batch(tier, seed):
                             run_fc(ck, case, target, recursive, explicit, False, expect_ok=False)
                         finally:
                             case.cleanup()
+        # ---- files that share names, ids and structure; files that go wrong in the middle; usage histories
+        shared_cases(tier, seed, col, ck)
     finally:
         shutil.rmtree(WORK, ignore_errors=True)
     res = col.result()
